@@ -65,6 +65,8 @@ pub struct RewriteRec {
 
 #[derive(Default)]
 pub struct Ctx {
+    /// (owner type, function) whose first parameter `*const Self` was read as `&Self` (X11)
+    pub x11_fns: Vec<(String, String)>,
     /// per handle type: the woven entry points that take the ghost log (name, number of non-self arguments)
     pub owner_fx: BTreeMap<String, Vec<(String, usize)>>,
     pub obligations: Vec<Obligation>,
@@ -286,6 +288,9 @@ pub struct FnWeaver<'a> {
     /// (name, arity) of the woven fx-taking methods of the impl type this function belongs to
     pub self_fx: Vec<(String, usize)>,
     pub param_types: Vec<(String, String)>,
+    pub len_aliases: BTreeMap<String, String>,
+    /// parameters of this function whose raw self pointer type was read as `&Self` (X11)
+    pub x11_params: Vec<String>,
 }
 
 impl<'a> FnWeaver<'a> {
@@ -382,6 +387,11 @@ impl<'a> FnWeaver<'a> {
                 let self_ptr = ty == "*constSelf" || (!owner.is_empty() && (ty == format!("*const{}", owner) || ty.starts_with(&format!("*const{}<", owner))));
                 if self_ptr {
                     self.rewrite("X11", lo(pt.ty.span()), hi(pt.ty.span()), "&Self".into());
+                    if let syn::Pat::Ident(pi) = &*pt.pat {
+                        self.x11_params.push(pi.ident.to_string());
+                    }
+                    let fname = self.func.rsplit("::").next().unwrap_or("").to_string();
+                    self.ctx.x11_fns.push((owner.clone(), fname));
                 }
             }
         }
@@ -634,6 +644,13 @@ impl<'a> FnWeaver<'a> {
                         _ => None,
                     };
                     if let Some(name) = name {
+                        // `let n = C.len();` : n is a cached length of C (for index loops `while i < n`)
+                        if let syn::Expr::MethodCall(m) = &*init.expr {
+                            if m.method == "len" && m.args.is_empty() {
+                                let c = self.w.src[lo(m.receiver.span())..hi(m.receiver.span())].to_string();
+                                self.w.len_aliases.insert(name.clone(), c);
+                            }
+                        }
                         if self.w.is_guard_call(&init.expr) {
                             self.w.guards.push(name.clone());
                         }
@@ -1172,6 +1189,16 @@ impl<'x, 'a> PassA<'x, 'a> {
             }
         }
     }
+    /// a loop contract is written for one loop shape: if a `for` / `while` loop now leaves early (`break` / `continue`
+    /// of its own) and the contract does not say so (`loop n early-exit`), the proof has to be redone -- exit 2, like
+    /// X1's refusal, never an alarm
+    fn check_loop_shape(&mut self, ord: usize, body: &syn::Block) {
+        if let Some(ls) = self.w.c.loops.get(&ord) {
+            if !ls.clauses.is_empty() && !ls.early_exit && contains_break_continue(body) {
+                fatal(&format!("{}: the loop contract of loop {} does not fit: the loop now leaves early (break/continue); undecided", self.w.func, ord));
+            }
+        }
+    }
     fn loop_spec(&mut self, ord: usize) -> String {
         let ls = match self.w.c.loops.get(&ord) {
             Some(l) => l.clone(),
@@ -1227,10 +1254,27 @@ fn unresolved_placeholder(t: &str) -> Option<String> {
     None
 }
 
-/// `while I < C.len()`: (I, C)
-fn index_loop_head(cond: &syn::Expr, src: &str) -> Option<(String, String)> {
+fn is_simple_operand(e: &syn::Expr) -> bool {
+    match e {
+        syn::Expr::Path(_) | syn::Expr::Lit(_) => true,
+        syn::Expr::Field(f) => is_simple_operand(&f.base),
+        syn::Expr::Paren(p) => is_simple_operand(&p.expr),
+        syn::Expr::MethodCall(m) => m.method == "len" && m.args.is_empty() && is_simple_operand(&m.receiver),
+        _ => false,
+    }
+}
+
+/// `while I < C.len()` or `while I < N` with `let N = C.len();` earlier: (I, C)
+fn index_loop_head(cond: &syn::Expr, src: &str, len_aliases: &BTreeMap<String, String>) -> Option<(String, String)> {
     if let syn::Expr::Binary(b) = cond {
         if matches!(b.op, syn::BinOp::Lt(_)) {
+            if let (syn::Expr::Path(l), syn::Expr::Path(r)) = (&*b.left, &*b.right) {
+                if let (Some(i), Some(n)) = (l.path.get_ident(), r.path.get_ident()) {
+                    if let Some(c) = len_aliases.get(&n.to_string()) {
+                        return Some((i.to_string(), c.clone()));
+                    }
+                }
+            }
             if let (syn::Expr::Path(l), syn::Expr::MethodCall(m)) = (&*b.left, &*b.right) {
                 if m.method == "len" && m.args.is_empty() {
                     if let Some(i) = l.path.get_ident() {
@@ -1253,6 +1297,10 @@ fn contains_break_continue(b: &syn::Block) -> bool {
             self.0 = true;
         }
         fn visit_expr_closure(&mut self, _: &'ast syn::ExprClosure) {}
+        // an unlabelled break / continue inside a nested loop belongs to that loop
+        fn visit_expr_while(&mut self, _: &'ast syn::ExprWhile) {}
+        fn visit_expr_loop(&mut self, _: &'ast syn::ExprLoop) {}
+        fn visit_expr_for_loop(&mut self, _: &'ast syn::ExprForLoop) {}
     }
     let mut v = V(false);
     v.visit_block(b);
@@ -1302,11 +1350,26 @@ impl<'x, 'a, 'ast> Visit<'ast> for PassA<'x, 'a> {
                     }
                 }
                 // X11: a raw signal pointer kept in a rewritten field is passed on as a reference
+                let mut x11_done = false;
                 for a in c.args.iter() {
                     let at: String = self.w.src[lo(a.span())..hi(a.span())].chars().filter(|c| !c.is_whitespace()).collect();
                     if self.w.unit.x11_args.contains(&at) {
                         let t = format!("{}.as_ref()", &self.w.src[lo(a.span())..hi(a.span())]);
                         self.w.rewrite("X11", lo(a.span()), hi(a.span()), t);
+                        x11_done = true;
+                    }
+                }
+                // ... and so is any other first argument of a function whose `this: *const Self` was read as `&Self`
+                // (a local the pointer was copied into), unless it is itself such a parameter
+                if !x11_done && p.path.segments.len() >= 2 && !c.args.is_empty() {
+                    let q = p.path.segments[p.path.segments.len() - 2].ident.to_string();
+                    if q != "Self" && self.w.ctx.x11_fns.iter().any(|(o, f)| *o == q && *f == name) {
+                        let a = &c.args[0];
+                        let is_x11_param = matches!(a, syn::Expr::Path(ap) if ap.path.get_ident().map(|i| self.w.x11_params.contains(&i.to_string())).unwrap_or(false));
+                        if !is_x11_param {
+                            let t = format!("{}.as_ref()", &self.w.src[lo(a.span())..hi(a.span())]);
+                            self.w.rewrite("X11", lo(a.span()), hi(a.span()), t);
+                        }
                     }
                 }
                 // X13: core::ptr::drop_in_place(M.as_mut_ptr()) -> M.assume_init_drop()   (std defines assume_init_drop as
@@ -1355,6 +1418,17 @@ impl<'x, 'a, 'ast> Visit<'ast> for PassA<'x, 'a> {
             }
         }
         syn::visit::visit_expr_call(self, c);
+    }
+    fn visit_pat_type(&mut self, pt: &'ast syn::PatType) {
+        // a declared type rewrite also applies to the type ascription of a local (`let p: *const Signal<T> = self.0;`)
+        let ty = squeeze(&self.w.src[lo(pt.ty.span())..hi(pt.ty.span())]);
+        for (from, to) in self.w.unit.type_rewrites.clone().iter() {
+            if ty == squeeze(from) {
+                let rule = if squeeze(from).starts_with("*const") { "X11" } else { "X3" };
+                self.w.rewrite(rule, lo(pt.ty.span()), hi(pt.ty.span()), to.clone());
+            }
+        }
+        syn::visit::visit_pat_type(self, pt);
     }
     fn visit_item_const(&mut self, c: &'ast syn::ItemConst) {
         // a function-local constant whose initialiser calls a function cannot be evaluated by the verifier: opaque
@@ -1434,6 +1508,7 @@ impl<'x, 'a, 'ast> Visit<'ast> for PassA<'x, 'a> {
     fn visit_expr_while(&mut self, e: &'ast syn::ExprWhile) {
         self.w.loop_ord += 1;
         let ord = self.w.loop_ord;
+        self.check_loop_shape(ord, &e.body);
         if let Some((name, cl)) = self.w.c.once_true.clone() {
             match is_plain_call_of(&e.cond, &name) {
                 Some(true) => {
@@ -1449,12 +1524,24 @@ impl<'x, 'a, 'ast> Visit<'ast> for PassA<'x, 'a> {
         }
         // the hand-written form of X1's result: `while i < C.len() { .. C[i] .. i += 1; }`
         if !self.w.binds.contains_key("$idx") {
-            if let Some((i, c)) = index_loop_head(&e.cond, self.w.src) {
+            if let Some((i, c)) = index_loop_head(&e.cond, self.w.src, &self.w.len_aliases) {
                 self.w.binds.insert("$idx".into(), i);
                 self.w.binds.insert("$coll".into(), c);
             }
         }
-        let spec = self.loop_spec(ord);
+        let mut spec = self.loop_spec(ord);
+        // a counting loop `while a < b` without a declared measure gets the obvious one (`b - a`); if it is wrong the
+        // verifier says so
+        let may_not_terminate = self.w.c.attrs.iter().any(|a| a.contains("exec_allows_no_decreases_clause"));
+        if !spec.contains("decreases") && !may_not_terminate {
+            if let syn::Expr::Binary(b) = &*e.cond {
+                if matches!(b.op, syn::BinOp::Lt(_)) && !matches!(&*b.left, syn::Expr::Call(_) | syn::Expr::MethodCall(_)) && is_simple_operand(&b.right) {
+                    let l = self.w.src[lo(b.left.span())..hi(b.left.span())].to_string();
+                    let r = self.w.src[lo(b.right.span())..hi(b.right.span())].to_string();
+                    spec.push_str(&format!("\n    decreases ({}) - ({})\n", r, l));
+                }
+            }
+        }
         if !spec.is_empty() {
             self.w.ghost(lo(e.body.brace_token.span.open()), spec, 0);
         }
@@ -1463,6 +1550,7 @@ impl<'x, 'a, 'ast> Visit<'ast> for PassA<'x, 'a> {
     fn visit_expr_loop(&mut self, e: &'ast syn::ExprLoop) {
         self.w.loop_ord += 1;
         let ord = self.w.loop_ord;
+        // (no shape check: `break` is the ordinary exit of a `loop`, e.g. a desugared `while let`)
         let spec = self.loop_spec(ord);
         if !spec.is_empty() {
             self.w.ghost(lo(e.body.brace_token.span.open()), spec, 0);
@@ -1472,6 +1560,7 @@ impl<'x, 'a, 'ast> Visit<'ast> for PassA<'x, 'a> {
     fn visit_expr_for_loop(&mut self, e: &'ast syn::ExprForLoop) {
         self.w.loop_ord += 1;
         let ord = self.w.loop_ord;
+        self.check_loop_shape(ord, &e.body);
         // X1: for (i, x) in E.iter().enumerate() { B }
         let mut x1 = None;
         if let syn::Expr::MethodCall(m1) = &*e.expr {
@@ -1597,6 +1686,8 @@ pub fn new_weaver<'a>(src: &'a str, file: &'a str, func: String, c: &'a FnContra
         localise: false,
         self_fx: vec![],
         param_types: vec![],
+        len_aliases: BTreeMap::new(),
+        x11_params: vec![],
     }
 }
 
